@@ -156,15 +156,19 @@ impl Decoder<'_> {
     /// null character (`\0`), or reaching the limit or end of the stream
     /// and erroring out.
     pub fn string(&mut self) -> Result<String> {
-        // If we have a limit, then don't search further than we need to.
-        let slice = match self.limit {
-            Some(limit) => &self.bytes[self.offset..(self.offset + limit * WORD_NUM_BYTES)],
-            None => &self.bytes[self.offset..],
+        // Only whole words that lie inside the buffer -- and inside the limit,
+        // if we have one -- can be part of the string, so don't search further.
+        let available_words = self.bytes.len().saturating_sub(self.offset) / WORD_NUM_BYTES;
+        let (num_words, limited) = match self.limit {
+            Some(limit) if limit <= available_words => (limit, true),
+            _ => (available_words, false),
         };
+        let slice = &self.bytes[self.offset..self.offset + num_words * WORD_NUM_BYTES];
         // Find the null terminator.
-        let first_null_byte = slice.iter().position(|&c| c == 0).ok_or(match self.limit {
-            Some(_) => Error::LimitReached(self.offset + slice.len()),
-            None => Error::StreamExpected(self.offset),
+        let first_null_byte = slice.iter().position(|&c| c == 0).ok_or(if limited {
+            Error::LimitReached(self.offset + slice.len())
+        } else {
+            Error::StreamExpected(self.offset)
         })?;
         // Validate the string is utf8.
         let result = str::from_utf8(&slice[..first_null_byte])
